@@ -146,14 +146,16 @@ func apply(ns *nbtns.NetBIOSNameServer, c *client, in In, scribble bool) Out {
 
 // genOp always draws the same number of choices, whatever it generates, so that the
 // minimiser can change or drop one operation without shifting the meaning of the rest.
-func genOp(ttl [3]int64, mix int) In {
-	kd, nm, gr, ad, fm := hx.G(9), hx.G(3), hx.G(2), hx.G(3), hx.G(2)
+func genOp(ttl [3]int64, mix int, perOpTTL bool) In {
+	kd, nm, gr, ad, fm, tt := hx.G(9), hx.G(3), hx.G(2), hx.G(3), hx.G(2), hx.G(4)
 	var k OpKind
 	switch mix {
 	case 0: // registration heavy
 		k = [...]OpKind{OpRegister, OpQuery, OpRegister, OpRegister, OpQuery, OpRelease, OpRefresh, OpMark, OpClean}[kd]
 	case 5: // time heavy: one name, its TTL, refreshes, sweeps and clock jumps issued by the clients themselves
-		k = [...]OpKind{OpRegister, OpQuery, OpRefresh, OpJump, OpClean, OpJump, OpRefresh, OpQuery, OpClean}[kd]
+		k = [...]OpKind{OpRegister, OpQuery, OpRefresh, OpJump, OpClean, OpRelease, OpRegister, OpQuery, OpClean}[kd]
+	case 6: // operations on names that are past their TTL but not yet swept, racing with the sweep
+		k = [...]OpKind{OpClean, OpRelease, OpRegister, OpQuery, OpRefresh, OpClean, OpRegister, OpRelease, OpQuery}[kd]
 	case 1, 3, 4: // churn
 		k = [...]OpKind{OpRegister, OpQuery, OpRelease, OpRelease, OpQuery, OpRegister, OpRefresh, OpRegister, OpRelease}[kd]
 	default:
@@ -182,6 +184,9 @@ func genOp(ttl [3]int64, mix int) In {
 	if k == OpRegister {
 		in.Group = gr == 1
 		in.TTL = ttl[in.Name]
+		if perOpTTL {
+			in.TTL = ttlChoices[tt]
+		}
 	}
 	if k == OpRegister || k == OpRelease || k == OpRefresh {
 		in.Addr = ad
@@ -203,6 +208,7 @@ func Run(seed uint64, index int64, o hx.Opts) *hx.Result {
 	w.NoSkip = true
 
 	var clients []*client
+	var preludeLog []opRec
 	var clock *client
 	var ns *nbtns.NetBIOSNameServer
 	startNow := int64(1) // the clock is odd, TTLs are even: no comparison sits on now == expiry by accident
@@ -218,14 +224,29 @@ func Run(seed uint64, index int64, o hx.Opts) *hx.Result {
 		if z := hx.G(24); z < 3 {
 			ttl[z] = 0
 		}
-		mix := hx.G(6)
+		mix := hx.G(7)
+		var prelude []In
+		{
+			// drawn always (fixed width), used by mix 6: every name registered, then the clock jumps past every TTL
+			for n := 0; n < 3; n++ {
+				prelude = append(prelude, In{Kind: OpRegister, Name: n, Group: hx.G(2) == 1, Addr: hx.G(3), Form: hx.G(2), TTL: ttlChoices[1+n%2]})
+			}
+			prelude = append(prelude, In{Kind: OpJump, TTL: jumpChoices[2]})
+		}
+		perOpTTL := hx.G(2) == 0 // TTL chosen per registration instead of per name
+		if mix == 6 {
+			perOpTTL = false
+			for n := range ttl {
+				ttl[n] = ttlChoices[1+n%2]
+			}
+		}
 		mirror := hx.G(4) == 0 // every client runs the same operation list (maximal contention on identical operations)
 		// fixed-width generation: all candidate operations first, the counts afterwards
 		const maxClients, maxOps, maxJumps = 4, 12, 4
 		var pool [maxClients][maxOps]In
 		for c := 0; c < maxClients; c++ {
 			for i := 0; i < maxOps; i++ {
-				pool[c][i] = genOp(ttl, mix)
+				pool[c][i] = genOp(ttl, mix, perOpTTL)
 			}
 		}
 		var jumps [maxJumps]int64
@@ -260,6 +281,16 @@ func Run(seed uint64, index int64, o hx.Opts) *hx.Result {
 		}
 
 		ns = nbtns.NewNetBIOSNameServer(secured)
+		if mix == 6 {
+			pre := &client{id: 9}
+			for _, in := range prelude {
+				call := rt.Seq()
+				out := apply(ns, pre, in, false)
+				ret := rt.Seq()
+				pre.log = append(pre.log, opRec{Client: pre.id, In: in, Out: out, Call: call, Ret: ret})
+			}
+			preludeLog = pre.log
+		}
 		var tasks []*rt.Task
 		for _, cl := range clients {
 			cl := cl
@@ -303,6 +334,7 @@ func Run(seed uint64, index int64, o hx.Opts) *hx.Result {
 
 	// ---- oracles over the recorded history
 	var hist []opRec
+	hist = append(hist, preludeLog...)
 	for _, cl := range clients {
 		hist = append(hist, cl.log...)
 	}
